@@ -106,3 +106,39 @@ Proof.
     + cbn [g_nodes]. unfold sort_nodes. cbn [g_nodes]. exact Hsorted.
   - unfold sort_nodes. cbn [g_nodes]. exact Hsorted.
 Qed.
+
+(* ---- the converse for reports without a node count (nodecount 0): every entry of the untrimmed
+   graph whose |cum| is not below the cutoff IS shown, with its numbers ---- *)
+Lemma kept_entry_survives : forall kept dn ss n v,
+  keptb node_info ni_eqb kept n = true ->
+  In (n, v) (g_nodes (new_graph node_info ni_eqb None dn ss)) ->
+  In (n, v) (g_nodes (new_graph node_info ni_eqb kept dn ss)).
+Proof.
+  intros kept dn ss n v Hk Hin. unfold new_graph, select_nodes in *. cbn [g_nodes] in *.
+  apply filter_In in Hin. destruct Hin as [Hin Hd]. cbn [snd] in Hd.
+  apply filter_In. split; [|exact Hd].
+  apply (nget_found node_info ni_eqb ni_eqb_spec).
+  - rewrite (kept_nodes_unchanged_lemma node_info ni_eqb ni_eqb_spec kept ss n Hk).
+    apply (nget_in node_info ni_eqb ni_eqb_spec); [|exact Hin].
+    exact (build_nodup node_info ni_eqb ni_eqb_spec None ss).
+  - intros E. rewrite E in Hd. rewrite dropped_nval0 in Hd. discriminate.
+Qed.
+
+Theorem above_cutoff_is_shown_lemma : forall o pr n v, o_nodecount o = 0 ->
+  In (n, v) (g_nodes (report_graph o (rebuild o pr) None)) ->
+  (abs64 (nv_cum v) <? o_nodecutoff o) = false ->
+  In (n, v) (g_nodes (t_g (new_trimmed_text o pr))).
+Proof.
+  intros o pr n v Hn Hin Hab. unfold new_trimmed_text. cbv zeta. set (pr1 := rebuild o pr) in *.
+  assert (H1 : In (n, v) (g_nodes (fst (trim_pass1 o pr1)))).
+  { unfold trim_pass1. destruct (0 <? o_nodecutoff o); [|exact Hin].
+    match goal with |- context [if ?c then _ else _] => destruct c end; [|exact Hin].
+    cbn [fst]. unfold report_graph in *. apply kept_entry_survives; [|exact Hin].
+    unfold keptb. apply (memK_In node_info ni_eqb ni_eqb_spec).
+    unfold above_cum_cutoff. apply in_map_iff. exists (n, v). split; [reflexivity|].
+    apply filter_In. split; [exact Hin|]. cbn [snd]. rewrite Hab. reflexivity. }
+  destruct (trim_pass1 o pr1) as [g1 dropped]. cbn [fst] in H1.
+  rewrite Hn. change (0 <? 0) with false. cbv iota.
+  cbn [t_g]. unfold trim_edges, sort_nodes. cbn [g_nodes].
+  apply sort_by_in. exact H1.
+Qed.
